@@ -5,11 +5,13 @@ HARNESSES = {
 
 def _runs(tier):
     if tier == "quick":
-        return [{"harness": "pip", "args": ["--mode", "fresh", "--rows", "2"], "budget": 60},
-                {"harness": "pip", "args": ["--mode", "incremental", "--depth", "2"], "budget": 75},
-                {"harness": "pip", "args": ["--mode", "fresh", "--rows", "3", "--maxdim", "3", "--no-big"], "budget": 75}]
+        return [{"harness": "pip", "args": ["--mode", "fresh", "--rows", "2"], "budget": 50},
+                {"harness": "pip", "args": ["--mode", "incremental", "--depth", "2"], "budget": 60},
+                {"harness": "pip", "args": ["--mode", "fresh", "--rows", "3", "--maxdim", "3", "--no-big"], "budget": 60},
+                {"harness": "pip", "args": ["--mode", "boxed", "--layouts", "1", "--strategies", "3"], "budget": 60}]
     return [{"harness": "pip", "args": ["--mode", "fresh", "--rows", "3"], "budget": 1200},
-            {"harness": "pip", "args": ["--mode", "incremental", "--depth", "3"], "budget": 1300}]
+            {"harness": "pip", "args": ["--mode", "incremental", "--depth", "3"], "budget": 1300},
+            {"harness": "pip", "args": ["--mode", "boxed", "--layouts", "3", "--strategies", "6"], "budget": 600}]
 
 CHECKS = {
     "C07": {"runs": _runs, "level": "model_checking", "deadline": {"quick": 270, "thorough": 2500},
